@@ -27,7 +27,8 @@ Record psim := mkPsim {
   ps_held : list N;
   ps_next : N;
   ps_fault : option (nat * Z * bool);
-  ps_amb : bool
+  ps_amb : bool;
+  ps_reg : list N      (* the priorities the driver has registered and not removed (its own view, updated when it issues the call) *)
 }.
 
 Definition sim_dv (base : Divider) (all : list N) (f : option (nat * Z * bool)) : nat -> Divider :=
@@ -109,7 +110,7 @@ Definition apply_op (fixed : bool) (base : Divider) (fuel : nat) (sm : psim) (co
   let '(s1, sm1, res) :=
     if (code =? 1)%Z then
       match env_step s (Put (Z.to_nat a) (ps_next sm)) with
-      | Some s' => (s', mkPsim s' (ps_held sm) (ps_next sm + 1) (ps_fault sm) (ps_amb sm), (0, 0))
+      | Some s' => (s', mkPsim s' (ps_held sm) (ps_next sm + 1) (ps_fault sm) (ps_amb sm) (ps_reg sm), (0, 0))
       | None => (s, sm, (0, 0))
       end
     else if (code =? 2)%Z then (env_or_same s (Close (Z.to_nat a)), sm, (0, 0))
@@ -117,7 +118,7 @@ Definition apply_op (fixed : bool) (base : Divider) (fuel : nat) (sm : psim) (co
       match outq s with
       | (p, x) :: _ =>
           match env_step s Take with
-          | Some s' => (s', mkPsim s' (ps_held sm ++ [p]) (ps_next sm) (ps_fault sm) (ps_amb sm), (p, x))
+          | Some s' => (s', mkPsim s' (ps_held sm ++ [p]) (ps_next sm) (ps_fault sm) (ps_amb sm) (ps_reg sm), (p, x))
           | None => (s, sm, (0, 0))
           end
       | [] => (s, sm, (0, 0))
@@ -126,26 +127,29 @@ Definition apply_op (fixed : bool) (base : Divider) (fuel : nat) (sm : psim) (co
       match nth_mod (Z.to_N a) (ps_held sm) with
       | Some (p, rest) =>
           match env_step s (Release p) with
-          | Some s' => (s', mkPsim s' rest (ps_next sm) (ps_fault sm) (ps_amb sm), (0, 0))
+          | Some s' => (s', mkPsim s' rest (ps_next sm) (ps_fault sm) (ps_amb sm) (ps_reg sm), (0, 0))
           | None => (s, sm, (0, 0))
           end
       | None => (s, sm, (0, 0))
       end
-    else if (code =? 5)%Z then (s, mkPsim s (ps_held sm) (ps_next sm) (Some (ncalls s, a, false)) (ps_amb sm), (0, 0))
-    else if (code =? 7)%Z then (s, mkPsim s (ps_held sm) (ps_next sm) (Some (ncalls s, a, true)) (ps_amb sm), (0, 0))
+    else if (code =? 5)%Z then (s, mkPsim s (ps_held sm) (ps_next sm) (Some (ncalls s, a, false)) (ps_amb sm) (ps_reg sm), (0, 0))
+    else if (code =? 7)%Z then (s, mkPsim s (ps_held sm) (ps_next sm) (Some (ncalls s, a, true)) (ps_amb sm) (ps_reg sm), (0, 0))
     else if (code =? 8)%Z then
       (* AddInput(channel a, priority b); channel ids >= 1000 are unbuffered.  Refused by the driver after termination *)
       match pcs s with
       | Done _ => (s, sm, (0, 0))
-      | _ => (env_or_same s (AddCall (Z.to_nat a) (Z.to_N b) (a <? 1000)%Z), sm, (0, 0))
+      | _ => (env_or_same s (AddCall (Z.to_nat a) (Z.to_N b) (a <? 1000)%Z),
+              mkPsim s (ps_held sm) (ps_next sm) (ps_fault sm) (ps_amb sm)
+                     (if existsb (N.eqb (Z.to_N b)) (ps_reg sm) then ps_reg sm else Z.to_N b :: ps_reg sm), (0, 0))
       end
     else if (code =? 9)%Z then
       match pcs s with
       | Done _ => (s, sm, (0, 0))
-      | _ => (env_or_same s (RmvCall (Z.to_N a)), sm, (0, 0))
+      | _ => (env_or_same s (RmvCall (Z.to_N a)),
+              mkPsim s (ps_held sm) (ps_next sm) (ps_fault sm) (ps_amb sm) (filter (fun q => negb (N.eqb q (Z.to_N a))) (ps_reg sm)), (0, 0))
       end
     else if (code =? 10)%Z then (env_or_same s GracefulCall, sm, (0, 0))
     else if orb (code =? 11)%Z (code =? 12)%Z then (env_or_same s StopCall, sm, (0, 0))   (* Stop() / context cancellation *)
     else (s, sm, (0, 0)) in
-  let '(s2, amb) := sched_run fixed (sim_dv base (prios s1) (ps_fault sm1)) fuel settle None (ps_amb sm1) s1 in
-  (mkPsim s2 (ps_held sm1) (ps_next sm1) (ps_fault sm1) amb, res).
+  let '(s2, amb) := sched_run fixed (sim_dv base (sort_desc (ps_reg sm1)) (ps_fault sm1)) fuel settle None (ps_amb sm1) s1 in
+  (mkPsim s2 (ps_held sm1) (ps_next sm1) (ps_fault sm1) amb (ps_reg sm1), res).
